@@ -19,7 +19,11 @@ def run(tier):
     V.model(res, "Result.tla scope=grid: squared Bendat-Piersol forms on the (g2, n, magnitude, phase) grid; DevIsEstimateTimesError, ErrorsScaleWithN, AutoUsesUnitCoherence")
     R.replay_grid(V, PID, cases, NAMES, "grid")
     V.sample({"grid_case": cases[len(cases) // 2]["bins"][0], "expected": {k: cases[len(cases) // 2]["exp"][k] for k in ("Gxy_dev", "Hxy_dev", "coh_dev", "Hxy_rad_error")}})
-    R.run_traces(V, PID, tier, common.seed(), lambda rnd: [("single", 6), ("beat",), ("nearunity",)])
+    R.run_traces(V, PID, tier, common.seed(), lambda rnd: [("single", 6), ("beat",), ("nearunity",)],
+                 # 95 % overlap with short segments: more segments asked for than there are distinct positions (the count is capped at N-L+1);
+                 # n in every formula is the number of segments actually averaged
+                 extra=[dict(N=3000, fs=1.0, data="gain_noise", sched=sc, win="hann", order=0, backend="numba", Jdes=8, Kdes=5, Lmin=1, psll=120, olap=0.95)
+                        for sc in ("ltf", "lpsd")])
     # the error bars are views of one estimate: they must not change with what was looked at (or plotted) before
     res2, results, hists = R.hist_cases(f"{PID}_hist", 2)
     V.model(res2, "Result.tla scope=hist (operation histories of length 2, incl. plots with error bands)")
